@@ -26,9 +26,16 @@ modelled about floats is the one thing a verdict depends on: a literal whose
 exact decimal value rounds to ±∞ (`≥ 2^1024 − 2^970`, round-half-even) is the
 error `numberOutOfRange`.
 
-Recursion: lexers are structural on the byte list; the recursive-descent
-parser and the two document loops recurse on the length of the remaining
-input (results carry the proof that the rest is shorter).  Import-free.
+* `ignoreValue`, `trialSlice`, `trialReader` — the detection trial
+  `json::input_matches` (`IgnoredAny` ⇒ `ignore_value`: iterative, no depth
+  limit, no UTF-8 / surrogate / number-range checks; a slice is first checked
+  as a whole with `str::from_utf8`, a reader is not).
+
+Recursion: the byte-level lexers are structural on the byte list; `natDec`
+recurses on `n / 10`; the string scanners, the recursive-descent parser, the
+`ignore_value` loop and the document loops recurse on the length of the
+remaining input (parser results carry the proof that the rest is shorter).
+No fuel, no unreachable default branches.  Import-free.
 -/
 namespace Xt.Json
 
@@ -687,6 +694,8 @@ mutual
         | .ok (cps, r') => .ok (.str cps, ⟨r', by have := parseStr_length hs; simp only [List.length_cons] at *; omega⟩)
       | .lbrack =>
         -- check_recursion!: `remaining_depth -= 1; if remaining_depth == 0 { error }`
+        -- (`d` is a `u8` starting at 128 and never passed on as 0, so `d ≤ 1`
+        -- is `d = 1`; no wrap-around is reachable)
         if d ≤ 1 then .error .recursionLimit else
         match parseElemsS (d - 1) true r with
         | .error e => .error e
@@ -1031,7 +1040,7 @@ mutual
       let done (r' : List Nat) (_ : r'.length ≤ r.length) : Except Err (List Nat) :=
         match stk with
         | [] => .ok r'
-        | _ :: _ => igAfter stk r' true
+        | frame :: up => igAfter frame up r' true
       match classify b with
       | .n =>
         match hi : ident [0x75, 0x6C, 0x6C] r with
@@ -1057,8 +1066,8 @@ mutual
         match hs : ignoreStr r with
         | .error e => .error e
         | .ok r' => done r' (Nat.le_of_lt (ignoreStr_length hs))
-      | .lbrack => igAfter (0x5B :: stk) r false
-      | .lbrace => igAfter (0x7B :: stk) r false
+      | .lbrack => igAfter 0x5B stk r false
+      | .lbrace => igAfter 0x7B stk r false
       | .other => .error .expectedValue
   termination_by (bs.length, 0)
   decreasing_by
@@ -1066,46 +1075,45 @@ mutual
     all_goals (apply Prod.Lex.left; omega)
 
   /-- `ignore_value`'s inner loop and what follows it, for the innermost open
-  bracket `frame`: closing brackets are eaten (popping), a `,` is eaten when
+  bracket `frame` (`up`: the brackets around it): closing brackets are eaten
+  (popping), a `,` is eaten when
   one may stand here, then — inside an object — a key and its `:`; after that a
   value is expected. -/
-  def igAfter (stk : List Nat) (bs : List Nat) (acceptComma : Bool) : Except Err (List Nat) :=
-    match stk with
-    | [] => .ok bs  -- not reached: `igValue` and the pop below stop at the empty stack
-    | frame :: up =>
-      match h : skipWs bs with
-      | [] => .error (if frame = 0x5B then .eofList else .eofObject)
-      | c :: r =>
-        have hle : r.length < bs.length := by
-          have := skipWs_length_le bs; rw [h] at this; simp only [List.length_cons] at this; omega
-        -- after the inner loop: the key of an object entry, then the value
-        let next (bs' : List Nat) (_ : bs'.length ≤ r.length + 1) : Except Err (List Nat) :=
-          if frame = 0x7B then
-            match hk : skipWs bs' with
-            | [] => .error .eofObject
-            | q :: r1 =>
-              have hlek : r1.length < bs'.length := by
-                have := skipWs_length_le bs'; rw [hk] at this; simp only [List.length_cons] at this; omega
-              if q ≠ 0x22 then .error .keyMustBeString else
-              match hs : ignoreStr r1 with
-              | .error e => .error e
-              | .ok r2 =>
-                have h2 : r2.length < r1.length := ignoreStr_length hs
-                match hc : skipWs r2 with
-                | [] => .error .eofObject
-                | c3 :: r3 =>
-                  have hle3 : r3.length < r2.length := by
-                    have := skipWs_length_le r2; rw [hc] at this; simp only [List.length_cons] at this; omega
-                  if c3 ≠ 0x3A then .error .expectedColon else igValue (frame :: up) r3
-          else igValue (frame :: up) bs'
-        if c = 0x2C ∧ acceptComma then next r (Nat.le_succ _)
-        else if (c = 0x5D ∧ frame = 0x5B) ∨ (c = 0x7D ∧ frame = 0x7B) then
-          match up with
-          | [] => .ok r
-          | _ :: _ => igAfter up r true
-        else if acceptComma then
-          .error (if frame = 0x5B then .expectedListCommaOrEnd else .expectedObjectCommaOrEnd)
-        else next (c :: r) (by simp)
+  def igAfter (frame : Nat) (up : List Nat) (bs : List Nat) (acceptComma : Bool) :
+      Except Err (List Nat) :=
+    match h : skipWs bs with
+    | [] => .error (if frame = 0x5B then .eofList else .eofObject)
+    | c :: r =>
+      have hle : r.length < bs.length := by
+        have := skipWs_length_le bs; rw [h] at this; simp only [List.length_cons] at this; omega
+      -- after the inner loop: the key of an object entry, then the value
+      let next (bs' : List Nat) (_ : bs'.length ≤ r.length + 1) : Except Err (List Nat) :=
+        if frame = 0x7B then
+          match hk : skipWs bs' with
+          | [] => .error .eofObject
+          | q :: r1 =>
+            have hlek : r1.length < bs'.length := by
+              have := skipWs_length_le bs'; rw [hk] at this; simp only [List.length_cons] at this; omega
+            if q ≠ 0x22 then .error .keyMustBeString else
+            match hs : ignoreStr r1 with
+            | .error e => .error e
+            | .ok r2 =>
+              have h2 : r2.length < r1.length := ignoreStr_length hs
+              match hc : skipWs r2 with
+              | [] => .error .eofObject
+              | c3 :: r3 =>
+                have hle3 : r3.length < r2.length := by
+                  have := skipWs_length_le r2; rw [hc] at this; simp only [List.length_cons] at this; omega
+                if c3 ≠ 0x3A then .error .expectedColon else igValue (frame :: up) r3
+        else igValue (frame :: up) bs'
+      if c = 0x2C ∧ acceptComma then next r (Nat.le_succ _)
+      else if (c = 0x5D ∧ frame = 0x5B) ∨ (c = 0x7D ∧ frame = 0x7B) then
+        match up with
+        | [] => .ok r
+        | frame' :: up' => igAfter frame' up' r true
+      else if acceptComma then
+        .error (if frame = 0x5B then .expectedListCommaOrEnd else .expectedObjectCommaOrEnd)
+      else next (c :: r) (by simp)
   termination_by (bs.length, 1)
   decreasing_by
     all_goals simp_wf
